@@ -22,6 +22,7 @@ pvars == <<gs, hs, last>>
 
 WeightSet2 == {-1, 2}
 WeightSet3 == {-1, 0, 2}
+WeightSetH == {-1, 5}              \* 5 is huge (1e20) in the inexact-weight family: totals become history dependent
 
 \* ---- operator== as the code computes it
 RawHas(x, i, j) == x.adj[i][j] > 0          \* Directed::hasEdge: j in adjacencyList[i]
